@@ -28,6 +28,11 @@ type TraceItem struct {
 	Bytes  []ByteItem // "bytes": what is appended to the tracked buffer
 	Off    int        // "store": constant offset into the tracked buffer
 	Expr   ast.Expr   // "field": the value assigned to a tracked struct field
+	Args   []string   // primitive call: every argument, with local copies / inlined parameters resolved
+	Recv   string     // primitive call: the receiver, resolved
+	Dst    string     // primitive call: the variable its (first) result is assigned to
+	Call   *ast.CallExpr
+	Fn     *FuncInfo // function the call appears in
 }
 
 func (t TraceItem) String() string {
@@ -410,6 +415,26 @@ func (tr *tracer) evalBool(info *types.Info, e ast.Expr, st *pathState) []boolCo
 					return []boolCont{{st, cmpInt(st.store[id.Name], x.Op, k)}}
 				}
 			}
+			// ordering comparisons: one atom "a < b" for a<b, b>a, !(a>=b), !(b<=a)
+			if x.Op != token.EQL && x.Op != token.NEQ {
+				l, r := st.resolve(normAtom(stripAllConv(info, x.X))), st.resolve(normAtom(stripAllConv(info, x.Y)))
+				if k, ok := constInt(info, x.X); ok {
+					l = fmt.Sprint(k)
+				}
+				if k, ok := constInt(info, x.Y); ok {
+					r = fmt.Sprint(k)
+				}
+				switch x.Op {
+				case token.LSS:
+					return tr.atom(l+" < "+r, st, true)
+				case token.GEQ:
+					return tr.atom(l+" < "+r, st, false)
+				case token.GTR:
+					return tr.atom(r+" < "+l, st, true)
+				case token.LEQ:
+					return tr.atom(r+" < "+l, st, false)
+				}
+			}
 			// value dispatch: subject == constant / subject != constant
 			if x.Op == token.EQL || x.Op == token.NEQ {
 				if subj, canon, label, ok := tr.selOperands(info, x, st); ok {
@@ -684,6 +709,28 @@ func (tr *tracer) execStmt(fi *FuncInfo, s ast.Stmt, st *pathState) []*pathState
 				}
 			}
 			s2.rets = nil
+			inlinedCall := false
+			if len(x.Rhs) == 1 {
+				if c, ok := ast.Unparen(x.Rhs[0]).(*ast.CallExpr); ok {
+					name := calleeName(info, c)
+					inlinedCall = tr.inline[name] || tr.autoInline(name)
+				}
+			}
+			if inlinedCall {
+				// a helper that ends in `return prim(...)`: the primitive's result is what the caller assigns
+				for i := len(s2.trace) - 1; i >= 0; i-- {
+					it := &s2.trace[i]
+					if it.Prim == "leave" {
+						continue
+					}
+					if it.Call != nil && it.Dst == "" {
+						if _, isRet := tr.p.Parent(it.Call).(*ast.ReturnStmt); isRet {
+							it.Dst = exprStr(x.Lhs[0])
+						}
+					}
+					break
+				}
+			}
 			if fromCallee {
 				// values taken from the callee's returns
 			} else if len(x.Lhs) == len(x.Rhs) {
@@ -700,6 +747,9 @@ func (tr *tracer) execStmt(fi *FuncInfo, s ast.Stmt, st *pathState) []*pathState
 			// name the destination of a read
 			if len(s2.trace) > 0 && len(x.Lhs) >= 1 && len(x.Rhs) == 1 {
 				if c, ok := ast.Unparen(x.Rhs[0]).(*ast.CallExpr); ok {
+					if _, isPrim := tr.prims[calleeName(info, c)]; isPrim && s2.trace[len(s2.trace)-1].Pos == c.Pos() {
+						s2.trace[len(s2.trace)-1].Dst = exprStr(x.Lhs[0])
+					}
 					if _, isPrim := tr.prims[calleeName(info, c)]; isPrim && s2.trace[len(s2.trace)-1].Pos == c.Pos() && s2.trace[len(s2.trace)-1].Arg == "" {
 						s2.trace[len(s2.trace)-1].Arg = exprStr(x.Lhs[0])
 					}
@@ -810,6 +860,26 @@ func (tr *tracer) execStmt(fi *FuncInfo, s ast.Stmt, st *pathState) []*pathState
 		// interpret the body once per combination of inner atoms; each yields a path whose trace holds one loop item
 		inner := st.clone()
 		inner.trace = nil
+		loopArg := ""
+		if rs, ok := x.(*ast.RangeStmt); ok {
+			// `for i, v := range X`: v stands for X[i]
+			xs := st.resolve(normAtom(rs.X))
+			key := ""
+			if kid, ok := rs.Key.(*ast.Ident); ok && kid.Name != "_" {
+				key = kid.Name
+				delete(inner.alias, key)
+				delete(inner.known, key)
+			}
+			if vid, ok := rs.Value.(*ast.Ident); ok && vid.Name != "_" {
+				delete(inner.known, vid.Name)
+				if key != "" {
+					inner.alias[vid.Name] = xs + "[" + key + "]"
+				} else {
+					delete(inner.alias, vid.Name)
+				}
+			}
+			loopArg = "range " + xs + " key " + key
+		}
 		var out []*pathState
 		for _, b := range tr.execList(fi, body.List, []*pathState{inner}) {
 			n := st.clone()
@@ -822,7 +892,7 @@ func (tr *tracer) execStmt(fi *FuncInfo, s ast.Stmt, st *pathState) []*pathState
 					n.store[k] = st.store[k] | b.store[k]
 				}
 			}
-			n.trace = append(n.trace, TraceItem{Prim: "loop", Body: b.trace, Pos: x.Pos()})
+			n.trace = append(n.trace, TraceItem{Prim: "loop", Arg: loopArg, Body: b.trace, Pos: x.Pos()})
 			if b.done == "return" || b.done == "panic" {
 				// a return inside the loop body: keep both the early-exit path and nothing else
 				n.done = b.done
@@ -1174,7 +1244,13 @@ func (tr *tracer) execExpr(fi *FuncInfo, e ast.Expr, states []*pathState) []*pat
 			}
 			for _, st := range states {
 				if st.done == "" {
-					it := TraceItem{Prim: prim, Arg: arg, Pos: c.Pos()}
+					it := TraceItem{Prim: prim, Arg: arg, Pos: c.Pos(), Call: c, Fn: fi}
+					for _, a := range c.Args {
+						it.Args = append(it.Args, st.resolve(normAtom(a)))
+					}
+					if rc := recvExpr(c); rc != nil {
+						it.Recv = st.resolve(normAtom(rc))
+					}
 					if len(c.Args) > 0 {
 						a0 := stripAllConv(info, c.Args[0])
 						if k, ok := constInt(info, a0); ok {
@@ -1223,6 +1299,17 @@ func (tr *tracer) execExpr(fi *FuncInfo, e ast.Expr, states []*pathState) []*pat
 							}
 						}
 						k++
+					}
+				}
+				// the receiver name stands for the receiver expression of the call
+				if callee.Decl.Recv != nil && len(callee.Decl.Recv.List) == 1 && len(callee.Decl.Recv.List[0].Names) == 1 {
+					if rc := recvExpr(c); rc != nil {
+						rn := callee.Decl.Recv.List[0].Names[0].Name
+						tmp := &pathState{alias: savedAlias}
+						a := tmp.resolve(strings.TrimPrefix(strings.TrimPrefix(exprStr(rc), "&"), "*"))
+						if a != rn && rn != "_" {
+							sub.alias[rn] = a
+						}
 					}
 				}
 				if callee.Decl.Type.Results != nil {
@@ -1282,7 +1369,7 @@ func flat(ts []TraceItem) []TraceItem {
 		case "enter", "leave":
 			continue
 		case "loop":
-			out = append(out, TraceItem{Prim: "loop", Body: flat(t.Body), Pos: t.Pos})
+			out = append(out, TraceItem{Prim: "loop", Arg: t.Arg, Body: flat(t.Body), Pos: t.Pos})
 		default:
 			out = append(out, t)
 		}
